@@ -19,9 +19,10 @@ import AdaptaVerif.Lemmas.PeelCheck
 import AdaptaVerif.Lemmas.PeelLeaf
 import AdaptaVerif.Lemmas.PeelModel3
 import AdaptaVerif.Lemmas.PeelComps2
+import AdaptaVerif.Lemmas.PeelBuckets
 namespace AdaptaVerif.Props.C19
 open AdaptaVerif.Spec.UGraph AdaptaVerif.Spec.GraphParts
-open AdaptaVerif.Model.Peel (peel getConnComps PeelOut TreeOut Comp degree)
+open AdaptaVerif.Model.Peel (peel peelB getConnComps PeelOut TreeOut Comp degree)
 open AdaptaVerif.Check.GraphParts (isTree connectedB simpleB peelOk componentsOk)
 open AdaptaVerif.Lemmas
 
@@ -95,6 +96,12 @@ example : ∃ out, peel [0, 1, 2, 3] [(0, 1), (1, 2), (2, 0), (2, 3)] = some out
     PeelSpec [0, 1, 2, 3] [(0, 1), (1, 2), (2, 0), (2, 3)] out.trees out.coreNodes out.coreEdges :=
   let ⟨out, h⟩ := peel_total _ _
   ⟨out, h, peel_spec (simpleB_iff.1 (by decide)) (connectedB_iff.1 (by decide)) h⟩
+
+/-- the literal mirror of the C++ loop with explicit degree buckets (`NodeBuckets`: takeLeaves,
+    moveNode(degree+1, degree), severNodes) computes exactly what the degree-based model does,
+    for every node and edge list; so all theorems about `peel` hold for `peelB` -/
+theorem peelB_eq_peel (ns : List Nat) (es : List (Nat × Nat)) : peelB ns es = peel ns es :=
+  PeelBuckets.peelB_eq_peel' ns es
 
 /-- the core clause needs no connectivity: the core is the induced subgraph on the surviving
     nodes and none of them has degree one -/
